@@ -1147,13 +1147,15 @@ def _ds_history(spec, rec, d, opened):
             if (view, feat) in stale:
                 rec.cls("ds:read-after-refilter")
                 nontrivial = True
+            was_read_before = set(was_read)
             was_read.add((view, feat))
             if feat not in ds:
                 rec.skip(f"ds:feature-not-offered:{view}:{feat}")
                 continue
             lo, hi = sorted((a % (nv + 1), b % (nv + 1)))
             if kind.startswith("scalar"):
-                acc = ["full", "slice", "asarray", "bool", "fancy"][asel % 5]
+                acc = ["full", "slice", "asarray", "bool", "fancy", "asarray-f32",
+                       "asarray-f32"][asel % 7]
             elif kind == "contour-anc":
                 acc = ["item", "item", "list"][asel % 3] \
                     if view not in ("mapped", "basin") else "item"
@@ -1175,6 +1177,10 @@ def _ds_history(spec, rec, d, opened):
                     return obj[lo:hi], slice(lo, hi)
                 if acc == "asarray":
                     return np.asarray(obj), slice(None)
+                if acc == "asarray-f32":
+                    # conversion requested by the caller (possibly as the very
+                    # first access): must not leak into what later reads see
+                    return np.asarray(obj, dtype=np.float32), slice(None)
                 if acc == "bool":
                     return obj[boolsel], boolsel
                 if acc == "fancy":
@@ -1184,6 +1190,10 @@ def _ds_history(spec, rec, d, opened):
 
             first, sel = get()
             exp = truth(view, feat, sel)
+            if exp is not None and acc == "asarray-f32":
+                exp = np.asarray(exp).astype(np.float32)
+                if (view, feat) not in was_read_before:
+                    rec.cls("ds:first-access-with-dtype")
             if exp is not None:
                 rec.check(_same(first, exp) if acc != "list"
                           else (len(first) == len(exp)
@@ -1300,7 +1310,7 @@ def _st_ds(draw, tier):
 
     def read(view=vs):
         return st.tuples(st.just("read"), view, st.integers(0, 7),
-                         st.integers(0, 4), st.integers(0, 14),
+                         st.integers(0, 6), st.integers(0, 14),
                          st.integers(0, 14), st.integers(0, 2))
     api = st.tuples(st.just("api"), st.sampled_from([0, 1, 2, 6]),
                     st.integers(0, 4), st.integers(0, 2), st.integers(0, 12),
